@@ -109,9 +109,14 @@ func c08pipeModel(c *Ctx, ruleMirror, ruleHop, ruleState string) {
 		}
 		// the datum shift: func(*datum, *datum, x, y[, z] float64) (x, y[, z] float64, error)
 		if n := sig.Params().Len(); sig.Recv() == nil && (n == 4 || n == 5) && sig.Results().Len() == n-1 && c.P.Decl(f) != nil && c.P.DeclPkg(f) == c.P.Pkg("proj") {
-			_, p0 := sig.Params().At(0).Type().(*types.Pointer)
-			_, p1 := sig.Params().At(1).Type().(*types.Pointer)
-			if p0 && p1 && isFloat64(sig.Params().At(2).Type()) && isFloat64(sig.Results().At(0).Type()) {
+			pt0, p0 := sig.Params().At(0).Type().(*types.Pointer)
+			pt1, p1 := sig.Params().At(1).Type().(*types.Pointer)
+			// two datums — not two references: a helper that carries the whole pipeline between two
+			// references has the same shape
+			isDatum := func(pt *types.Pointer) bool {
+				return pt != nil && !isNamed(pt.Elem(), modPath+"/proj", "SR")
+			}
+			if p0 && p1 && isDatum(pt0) && isDatum(pt1) && types.Identical(pt0.Elem(), pt1.Elem()) && isFloat64(sig.Params().At(2).Type()) && isFloat64(sig.Results().At(0).Type()) {
 				sl, dl := p.labelOf(args[0]), p.labelOf(args[1])
 				var ord []poly
 				for _, a := range args[2:] {
